@@ -43,8 +43,19 @@ pub struct Mat {
 }
 
 impl Mat {
+    /// The array handed to the library.  One matrix in four (decided by a hash of its contents, so a case
+    /// always maps to the same arrays) is laid out column-major: the same logical matrix, as `w.t().to_owned()`
+    /// or a Fortran-ordered .npy file produce it; code that reads raw buffers sees a different order.
     pub fn to_array(&self) -> Array2<f64> {
-        let mut a = Array2::<f64>::zeros((self.rows.len(), self.cols));
+        use ndarray::ShapeBuilder;
+        let mut h: u64 = 0x9E37_79B9_7F4A_7C15 ^ ((self.rows.len() as u64) << 32) ^ self.cols as u64;
+        for r in &self.rows {
+            for v in r {
+                h = (h ^ v.to_bits()).wrapping_mul(0x0000_0100_0000_01B3).rotate_left(23);
+            }
+        }
+        let col_major = self.rows.len() >= 2 && self.cols >= 2 && (h >> 17) % 4 == 0 && std::env::var("VERIF_ROW_MAJOR").is_err();
+        let mut a = if col_major { Array2::<f64>::zeros((self.rows.len(), self.cols).f()) } else { Array2::<f64>::zeros((self.rows.len(), self.cols)) };
         for (i, r) in self.rows.iter().enumerate() {
             assert_eq!(r.len(), self.cols);
             for (j, v) in r.iter().enumerate() {
@@ -200,6 +211,9 @@ pub enum RowSpec {
     PosMul { of: u16, f: u8 },
     NegMul { of: u16, f: u8 },
     Parallel { of: u16, b: f64 },
+    /// an earlier row with one coefficient multiplied by 1 + 2^-e (e in 20..=44): almost, but not exactly,
+    /// parallel - exactly representable because the generated coefficients have few significant bits
+    NearParallel { of: u16, j: u16, e: u8 },
     Zero { b: f64 },
     EqPair { a: Vec<f64>, b: f64 },
     Axis { axis: u16, neg: bool, b: f64 },
@@ -261,6 +275,20 @@ impl PolySpec {
                     rows.push(rows[i].clone());
                     bias.push(*b);
                     tags.push("parallel");
+                }
+                RowSpec::NearParallel { of, j, e } if !rows.is_empty() => {
+                    let i = crate::runner::pick(*of, rows.len());
+                    let jj = crate::runner::pick(*j, n);
+                    let eps = 2f64.powi(-(20 + (*e as i32 % 25)));
+                    let mut a = rows[i].clone();
+                    if a[jj] != 0.0 {
+                        a[jj] *= 1.0 + eps;
+                    } else {
+                        a[jj] = eps * a.iter().fold(0f64, |m, x| m.max(x.abs())).max(1.0);
+                    }
+                    rows.push(a);
+                    bias.push(bias[i]);
+                    tags.push("near_parallel");
                 }
                 RowSpec::Zero { b } => {
                     rows.push(vec![0.0; n]);
@@ -329,7 +357,21 @@ impl PolySpec {
 }
 
 pub fn row_spec(n: usize) -> impl Strategy<Value = RowSpec> {
+    row_spec_np(n, false)
+}
+
+/// `near_parallel`: also rows that differ from an earlier row by a relative 2^-20 .. 2^-44 in one coefficient.
+/// Only for checks of LP-free functions (C15's duplicate removal): an LP solver with tolerance 1e-8 cannot
+/// resolve such angles, so every LP-based demand would be inside its tolerance.
+pub fn row_spec_np(n: usize, near_parallel: bool) -> BoxedStrategy<RowSpec> {
     let v = move || vec_of(n, nice_sparse());
+    if near_parallel {
+        return prop_oneof![
+            24 => row_spec_np(n, false),
+            1 => (any::<u16>(), any::<u16>(), any::<u8>()).prop_map(|(of, j, e)| RowSpec::NearParallel { of, j, e }),
+        ]
+        .boxed();
+    }
     prop_oneof![
         8 => (v(), nice_with(32, 2)).prop_map(|(a, b)| RowSpec::Random { a, b }),
         1 => any::<u16>().prop_map(|of| RowSpec::Dup { of }),
@@ -342,13 +384,18 @@ pub fn row_spec(n: usize) -> impl Strategy<Value = RowSpec> {
         4 => (v(), any::<u16>()).prop_map(|(a, anchor)| RowSpec::Through { a, anchor }),
         4 => (v(), any::<u16>(), (0i32..=32).prop_map(|k| k as f64 / 4.0)).prop_map(|(a, anchor, slack)| RowSpec::Around { a, anchor, slack }),
     ]
+    .boxed()
 }
 
 pub fn poly_spec(n: usize, min_rows: usize, max_rows: usize) -> impl Strategy<Value = PolySpec> {
+    poly_spec_np(n, min_rows, max_rows, false)
+}
+
+pub fn poly_spec_np(n: usize, min_rows: usize, max_rows: usize, near_parallel: bool) -> impl Strategy<Value = PolySpec> {
     (
         proptest::collection::vec(lattice(n), 1..=3),
-        proptest::collection::vec(row_spec(n), min_rows..=max_rows),
-        prop_oneof![4 => Just(Vec::new()), 1 => proptest::collection::vec(prop_oneof![2 => Just(0i8), 1 => -30i8..=30], 1..6)],
+        proptest::collection::vec(row_spec_np(n, near_parallel), min_rows..=max_rows),
+        prop_oneof![4 => Just(Vec::new()), 1 => proptest::collection::vec(prop_oneof![20 => Just(0i8), 9 => -30i8..=30, 1 => prop_oneof![-110i8..=-40, 40i8..=110]], 1..6)],
     )
         .prop_map(move |(anchors, rows, scales)| PolySpec { dim: n, anchors, rows, scales })
 }
@@ -388,6 +435,12 @@ impl PointSpec {
 
 /// size parameter: mostly 1..=small, in ~8 % of the cases small+1..=large (so that behaviour that only
 /// depends on larger dimensions / longer structures is visited regularly, at bounded cost)
+/// like `sized`, plus a rare "wide" band 8..=12: ndarray switches to unrolled kernels at length 8, and
+/// nothing else in the generators reaches the dimensions real networks have
+pub fn sized_wide(small: usize, large: usize) -> BoxedStrategy<usize> {
+    prop_oneof![39 => sized(small, large), 1 => 8usize..=12].boxed()
+}
+
 pub fn sized(small: usize, large: usize) -> BoxedStrategy<usize> {
     if large <= small {
         return (1..=small).boxed();
